@@ -971,6 +971,24 @@ fn dgram_flood_len(sel: u64) -> usize {
 const FLOOD_KINDS: &[&str] = &["cid-churn", "path-challenge", "stream-gaps", "credit-frames", "stream-cycling", "datagrams", "ack-ranges", "reset-stop", "new-token", "crypto-gaps", "ack-withhold"];
 
 fn flood_case(seed: u64, trace: bool, packets: u64) -> CaseOut {
+    let (mut out, growth_over) = flood_case_inner(seed, trace, packets, std::env::var("QV_ALLOC_SITES").is_ok());
+    if growth_over {
+        // attribute the growth: the case is a pure function of its seed, so run it again with the
+        // allocator remembering where every live allocation was made
+        let (again, _) = flood_case_inner(seed, false, packets, true);
+        let top = again.sample.as_ref().and_then(|s| s.get("top_sites").cloned()).unwrap_or(json!([]));
+        let first = top.get(0).and_then(|t| t.as_str()).and_then(|t| t.split(": ").nth(1)).and_then(|t| t.split(" <- ").next()).unwrap_or("?").to_string();
+        for v in out.viol.iter_mut().filter(|v| v.msg.contains("the thread retains")) {
+            v.msg = format!("[most retained by {first}] {} | largest retained allocations made in: {top}", v.msg);
+        }
+    }
+    out
+}
+
+/// Returns the case's outcome and whether the memory bound was exceeded. With `sites` the
+/// allocator records a backtrace per allocation (slow) and the outcome's sample lists the sites
+/// that retain the most.
+fn flood_case_inner(seed: u64, trace: bool, packets: u64, sites: bool) -> (CaseOut, bool) {
     let mut r = Rng::new(seed ^ 0xC03C);
     let mut out = CaseOut::default();
     let mut vc = victim_cfg(&mut r);
@@ -989,7 +1007,7 @@ fn flood_case(seed: u64, trace: bool, packets: u64) -> CaseOut {
     net.latency_ns = 200_000;
     let Some(mut s) = build(seed, &vc, &mut r, &[], net, None) else {
         out.inconclusive = Some("world could not be built".into());
-        return out;
+        return (out, false);
     };
     // (no event trace in this group: it would be counted as retained memory)
     if trace && std::env::var("QV_FLOOD_TRACE").is_ok() {
@@ -1000,7 +1018,7 @@ fn flood_case(seed: u64, trace: bool, packets: u64) -> CaseOut {
     let mut viol = vec![];
     if s.victim.1 == usize::MAX || !s.victim_lost().is_empty() || !s.w.all_connected() {
         out.inconclusive = Some("handshake did not complete".into());
-        return out;
+        return (out, false);
     }
     let a_bit = if vc.is_server { 0 } else { 1 };
     let sel = r.below(5);
@@ -1069,7 +1087,6 @@ fn flood_case(seed: u64, trace: bool, packets: u64) -> CaseOut {
     let live0 = crate::alloc::live();
     let total0 = crate::alloc::total();
     let p0 = s.w.eps[s.victim.0].conns.get(&s.victim.1).map(|c| c.c.verif_probe());
-    let sites = std::env::var("QV_ALLOC_SITES").is_ok();
     if sites {
         crate::alloc::sites_begin();
     }
@@ -1077,11 +1094,18 @@ fn flood_case(seed: u64, trace: bool, packets: u64) -> CaseOut {
     s.w.recent.clear();
     s.w.counted.clear();
     s.w.mon.dgram_arrivals.clear();
+    let mut top_sites = vec![];
     if sites {
         for (b, n, site) in crate::alloc::sites_report(12) {
-            eprintln!("ALLOCSITE {b} bytes in {n} allocations: {site}");
+            if std::env::var("QV_ALLOC_SITES").is_ok() {
+                eprintln!("ALLOCSITE {b} bytes in {n} allocations: {site}");
+            }
+            if top_sites.len() < 2 {
+                top_sites.push(format!("{b} bytes / {n} allocations: {}", site.split(" <- ").take(2).collect::<Vec<_>>().join(" <- ")));
+            }
         }
     }
+    let mut growth_over = false;
     let live1 = crate::alloc::live();
     let total1 = crate::alloc::total();
     let p1 = s.w.eps[s.victim.0].conns.get(&s.victim.1).map(|c| c.c.verif_probe());
@@ -1093,15 +1117,17 @@ fn flood_case(seed: u64, trace: bool, packets: u64) -> CaseOut {
         out.cnt.inc("c03.flood_memory_checks");
         let growth = live1 - live0;
         out.cnt.add("c03.flood_growth_bytes_max", 0);
-        // harness bookkeeping per delivered datagram is small (monitor tables keyed by address /
-        // connection); allow 128 KiB plus 96 bytes per flood packet for it, plus what the victim
-        // may legitimately buffer (its windows, its datagram buffer)
+        // the harness's per-datagram logs were dropped above and what remains of its bookkeeping
+        // is keyed by address / connection: measured growth of a silent flood is 0 to a few bytes.
+        // Allow 64 KiB plus 16 bytes per flood packet, plus what the victim may legitimately
+        // buffer (its windows, its datagram buffer)
         // a buffered datagram costs its payload plus bookkeeping (a `Bytes` handle and its share of
         // the packet buffer it points into): up to `buffer / payload` datagrams can be held
         let dgram_slots = if kind == 5 { vc.t.dgram_recv_buf.unwrap_or(0).min(2 << 20) as i64 / dgram_flood_len(sel).max(1) as i64 } else { 0 };
         let legit = 96 * dgram_slots + vc.t.rwnd.min(vc.t.stream_rwnd.saturating_mul(vc.t.max_bidi + vc.t.max_uni)).min(4 << 20) as i64 * 3 + vc.t.dgram_recv_buf.unwrap_or(0).min(2 << 20) as i64 * 2 + 32768 * (vc.t.max_bidi + vc.t.max_uni).min(64) as i64;
-        let bound = 131072 + 96 * packets as i64 + legit;
+        let bound = 65536 + 16 * packets as i64 + legit;
         if growth > bound {
+            growth_over = !sites;
             viol.push(format!("after {packets} more flood packets ({}) the thread retains {growth} more bytes (bound {bound}); probe before {:?} after {:?}", FLOOD_KINDS[kind as usize], p0.as_ref().map(|p| (&p.streams.map_sizes, p.streams.recv_allocated, p.dgram_incoming)), p1.as_ref().map(|p| (&p.streams.map_sizes, p.streams.recv_allocated, p.dgram_incoming))));
         }
     } else if let Some(l) = lost.first() {
@@ -1119,12 +1145,12 @@ fn flood_case(seed: u64, trace: bool, packets: u64) -> CaseOut {
     }
     out.nontrivial = out.cnt.get("c03.flood_packets") > 0;
     out.fp = fingerprint(&[&cfg], &[seed]);
-    out.sample = Some(json!({ "config": cfg, "retained_growth_bytes": live1 - live0, "lost": lost }));
+    out.sample = Some(json!({ "config": cfg, "retained_growth_bytes": live1 - live0, "lost": lost, "top_sites": top_sites }));
     if std::env::var("QV_FLOOD_KIND").is_ok() {
         eprintln!("FLOODDBG {cfg} packets={packets} growth={} sent_packets={:?}", live1 - live0, p1.as_ref().map(|p| p.sent_packets));
     }
     out.trace = s.w.trace.take();
-    out
+    (out, growth_over)
 }
 
 // ---------------------------------------------------------------------------------------------
